@@ -86,7 +86,7 @@ theorem isClose_step (s s' : SSys) (l : SLabel) (j : Nat) (h : IsClose s j) (hn 
     split at hn
     · simp at hn
     · split at hn
-      · simp at hn; subst hn; exact h
+      · simp at hn; obtain ⟨_, hn⟩ := hn; subst hn; exact h
       · simp at hn
   | caller i =>
     simp only [snext] at hn
